@@ -707,6 +707,22 @@ func resolveAdd(m *model, h int, kind string, a, b, c, d int) (Action, bool) {
 			off = ^uint64(0) - uint64(n) // index = 2^64-1
 		}
 		act.Index, act.Key = uint64(n)+off, k
+	case "known/earlier", "next/earlier", "beyond/earlier":
+		// a key that already sits at an earlier index of this history
+		if n < 2 {
+			return act, false
+		}
+		e := a % (n - 1) // position of the key, at least one index before the end
+		var idx uint64
+		switch kind {
+		case "known/earlier":
+			idx = uint64(e + 1 + b%(n-1-e))
+		case "next/earlier":
+			idx = uint64(n)
+		default:
+			idx = uint64(n) + uint64(1+b%3)
+		}
+		act.Index, act.Key = idx, seq[e]
 	default:
 		return act, false
 	}
@@ -723,7 +739,7 @@ func drawFresh(t *rapid.T, m *model, h int, label string) (int, bool) {
 	return pickFresh(m, h, v[0], v[1])
 }
 
-var addKinds = []string{"known/same", "next/fresh", "next/fresh", "known/fresh", "known/fresh", "known/later", "known/later", "beyond/fresh"}
+var addKinds = []string{"known/same", "next/fresh", "next/fresh", "known/fresh", "known/fresh", "known/later", "known/later", "beyond/fresh", "known/earlier", "next/earlier", "beyond/earlier"}
 
 // apply advances the generator's model exactly as exec will (model side only).
 func apply(m *model, a Action) {
@@ -910,7 +926,7 @@ func TestCheck(t *testing.T) {
 	defer r.Finish()
 	r.Rule("histories of <=40 actions over a forest of cache handles (new from registry/empty; AddValidator with index next/known/beyond x key fresh/fresh-but-on-another-history/same/at-a-later-index; chains sharing a handle one behind the other running the deposit protocol; far lookups); after every action every live handle is swept over indices 0..max+1 and all 8 keys. non-trivial = >=1 fork-out and >=1 lookup on a forked handle of a key that exists only on another history of its tree; distinct key = (forest shape: parent@fork-index+length per handle, ordered list of conflict kinds)")
 	r.Assume("the model (pkmodel.go): a handle is a mutable, shared sequence of distinct keys; add = append in place | no-op | new handle h[:i]+[k] | error beyond next",
-		"callers' precondition kept by construction: a key present at an earlier index of the same history never reaches AddValidator (deposit processing tops up instead)",
+		"a key already present at an EARLIER index of the same history (real callers top up instead) may be passed to AddValidator: the only outcome consistent with handles being sequences of distinct keys is an error that changes nothing",
 		"registries have distinct pubkeys (state invariant)",
 		"pointer identity decides same handle / new handle, as the doc comment of AddValidator promises",
 		"single goroutine per case: concurrent use of a shared handle is C17's subject",
